@@ -27,7 +27,7 @@ doc = {
         "flavours": [{k: f[k] for k in ("flavour", "capacity", "scenarios", "executions", "schedules_per_scenario", "distinct_traces", "trace_events", "probes", "wall_s", "violations")} for f in frags],
         "probes": probes,
         "schedulers": ["shuttle RandomScheduler (seeded)", "shuttle PctScheduler (seeded, depth 2-4)"],
-        "fault_kinds": {"client_stops_early": "in ~1/8 of threads", "thundering_herd": "shape 'herd'", "eviction_pressure": "pool of sizes > capacity in every scenario"},
+        "fault_kinds": {"client_crash_inside_plan_generation": probes.get("client_crash_inside_plan_generation", 0), "client_stops_early": "in ~1/8 of threads", "thundering_herd": "shape 'herd'", "eviction_pressure": "pool of sizes > capacity in every scenario"},
         "simulated_time": "not applicable (no clock); scheduling points = every Mutex acquire/release, thread spawn/join",
         "runs_per_hour": int(ex / max(wall, 1e-9) * 3600),
         "real_components": ["get_or_generate_source_block_encoding_plan", "SourceBlockEncoder::new", "SourceBlockEncodingPlan::generate", "plan replay", "the cache's lookup/insert/eviction code"],
